@@ -73,6 +73,37 @@ func MockSpecs(thorough bool) []*spec.Spec {
 		mk("examples_same_short_name", "kind=message,card=same_short_name,examples=parsable", resp,
 			[]*spec.Message{spec.M("Item", spec.F("sku", "string").Ex("SKU-1", "SKU-2"), spec.F("weight", "int64").Ex("250", "300"))}, nil)
 	}
+	// enum responses on every cardinality
+	for _, card := range []string{"optional", "repeated", "map"} {
+		f := spec.En("val", "Color")
+		switch card {
+		case "optional":
+			f.Opt()
+		case "repeated":
+			f.Rep()
+		case "map":
+			f.Map()
+		}
+		mk("enum_"+card, "kind=enum,card="+card, spec.M("Resp", f, spec.F("label", "string")), nil, []*spec.Enum{color})
+	}
+	{
+		// examples on a field of a message declared inside the response message
+		resp := spec.M("Resp", spec.Msg("detail", "Resp.Detail"), spec.F("label", "string").Ex("l1", "l2")).WithNested(spec.M("Detail", spec.F("code", "string").Ex("c1", "c2"), spec.F("qty", "int64").Ex("3", "4")))
+		mk("examples_nested_declaration", "kind=message,card=nested_declaration,examples=parsable", resp, nil, nil)
+	}
+	{
+		// the syntax dimension: the same response shapes in a proto2 file (every singular field has presence; optional is a label)
+		mk2 := func(name, cell string, resp *spec.Message, extraM []*spec.Message) {
+			f := &spec.File{Proto2: true, Messages: append([]*spec.Message{spec.M("Req", spec.F("id", "string")), resp}, extraM...),
+				Services: []*spec.Service{spec.Svc("MockedService", "/m", spec.RPC("Fetch", "Req", "Resp", "POST", "/fetch"))}}
+			out = append(out, withCell(spec.One("mock_"+name, f), "mock/"+cell, "extended", "valid", "mock"))
+		}
+		mk2("proto2_scalars", "kind=scalars,card=optional,syntax=proto2,examples=parsable",
+			spec.M("Resp", spec.F("title", "string").Opt().Ex("t1", "t2"), spec.F("count", "int32").Opt().Ex("5", "6"), spec.F("done", "bool").Opt().Ex("true"), spec.F("total", "int64").Opt(),
+				spec.F("ratio", "double").Opt(), spec.F("tags", "string").Rep().Ex("a", "b")), nil)
+		mk2("proto2_nested", "kind=message,card=optional,syntax=proto2,examples=parsable",
+			spec.M("Resp", spec.Msg("leaf", "Leaf").Opt(), spec.Msg("leaves", "Leaf").Rep(), spec.F("name", "string").Opt()), []*spec.Message{spec.M("Leaf", spec.F("label", "string").Opt().Ex("x", "y"), spec.F("n", "int32").Opt())})
+	}
 	mk("examples_quote", "kind=string,card=singular,examples=quote", spec.M("Resp", spec.F("val", "string").Ex(`say "hi"`, `back\slash`)), nil, nil)
 	return out
 }
